@@ -52,6 +52,32 @@ pub fn dispatch(id: &str, a: &[Arg]) -> Option<String> {
     if id.starts_with("IterStatistics::") {
         return stat(id, a);
     }
+    if let Some(m) = id.strip_prefix("cat::") {
+        use statrs::distribution::{Categorical, Discrete, DiscreteCDF};
+        use statrs::statistics::{Distribution as _, Max, Median, Min};
+        let d = match Categorical::new(&a[0].fl()) {
+            Ok(d) => d,
+            Err(e) => return Some(crate::proto::ctor_err(&e)),
+        };
+        let k = |i: usize| -> u64 { a[i].i() as u64 };
+        return Some(match m {
+            "new" => "ok".to_string(),
+            "pmf" => rep(&d.pmf(k(1))),
+            "ln_pmf" => rep(&d.ln_pmf(k(1))),
+            "cdf" => rep(&d.cdf(k(1))),
+            "sf" => rep(&d.sf(k(1))),
+            "inverse_cdf" => rep(&d.inverse_cdf(a[1].f())),
+            "min" => rep(&d.min()),
+            "max" => rep(&d.max()),
+            "mean" => rep(&d.mean()),
+            "variance" => rep(&d.variance()),
+            "std_dev" => rep(&d.std_dev()),
+            "entropy" => rep(&d.entropy()),
+            "skewness" => rep(&d.skewness()),
+            "median" => rep(&d.median()),
+            _ => return None,
+        });
+    }
     {
         use statrs::distribution::{ContinuousCDF, Empirical};
         let obs_of = |e: &Empirical, obs: &[f64]| -> (Vec<f64>, (Option<f64>, Option<f64>)) {
@@ -164,6 +190,77 @@ pub fn gen(suite: &str, tier: &str, seed: u64) {
     }
     if suite == "ranktests" {
         crate::hand_ranktests::gen(tier, seed);
+        return;
+    }
+    if suite == "categorical" {
+        // Categorical: hand-modelled constructor + generated methods.  Probability vectors: the full
+        // special-value lattice for lengths 0..=3 (4 in thorough), then seeded vectors with zero masses.
+        let thorough = tier == "thorough";
+        let mut r = crate::rng::Sm::new(seed ^ 0xca7);
+        let lat = [0.0, 0.25, 1.0, 3.0, 5e-324, 1e-300, 1e300, f64::MAX, f64::INFINITY, f64::NAN, -1.0, -0.0];
+        let mut vecs: Vec<Vec<f64>> = vec![vec![]];
+        let maxn = if thorough { 4 } else { 3 };
+        for n in 1..=maxn {
+            let mut idx = vec![0usize; n];
+            loop {
+                vecs.push(idx.iter().map(|i| lat[*i]).collect());
+                let mut i = 0;
+                while i < n {
+                    idx[i] += 1;
+                    if idx[i] < lat.len() {
+                        break;
+                    }
+                    idx[i] = 0;
+                    i += 1;
+                }
+                if i == n {
+                    break;
+                }
+            }
+        }
+        let n_lat = vecs.len();
+        for _ in 0..(if thorough { 3000 } else { 300 }) {
+            let n = 1 + r.below(12) as usize;
+            vecs.push((0..n).map(|_| match r.below(6) { 0 => 0.0, 1 => r.log_range(1e-12, 1e12), _ => r.range(0.0, 10.0) }).collect());
+        }
+        let emit = |id: &str, a: &[Arg]| println!("{} {}", id, a.iter().map(|x| x.render()).collect::<Vec<_>>().join(" "));
+        for (vi, v) in vecs.iter().enumerate() {
+            let pv = Arg::FL(v.clone());
+            emit("cat::new", &[pv.clone()]);
+            // the lattice is large: all methods for every 7th lattice vector and for every seeded one
+            let full = v.len() <= 2 || vi % 7 == 0 || vi >= n_lat;
+            if !full {
+                continue;
+            }
+            for m in ["min", "max", "mean", "variance", "std_dev", "entropy", "skewness", "median"] {
+                emit(&format!("cat::{}", m), &[pv.clone()]);
+            }
+            let n = v.len() as i128;
+            for k in [0, 1, 2, n - 1, n, n + 1, 1 << 40] {
+                if k < 0 {
+                    continue;
+                }
+                for m in ["pmf", "ln_pmf", "cdf", "sf"] {
+                    emit(&format!("cat::{}", m), &[pv.clone(), Arg::I(k)]);
+                }
+            }
+            // quantile levels: grid, end points, out of range, and the exact cumulative levels (plateau ends)
+            let mut ps: Vec<f64> = vec![0.0, 1.0, -0.5, 1.5, f64::NAN, 5e-324, 0.5, 0.25, 0.75, 1.0 - f64::EPSILON / 2.0];
+            let s: f64 = v.iter().sum();
+            let mut c = 0.0;
+            for x in v {
+                c += x;
+                ps.push(c / s);
+                ps.push(crate::gen::next_up(c / s));
+                ps.push(crate::gen::next_down(c / s));
+            }
+            for _ in 0..4 {
+                ps.push(r.unit());
+            }
+            for p in ps {
+                emit("cat::inverse_cdf", &[pv.clone(), Arg::F(p)]);
+            }
+        }
         return;
     }
     match suite {
